@@ -336,6 +336,20 @@ CLAIMED = {
             'helpers of the python backend (isqrt_python, numeral_python, python_bitcount) are value-level: '
             'seeded changes C37-2 and C37-3 are not detected.',
             'DESIGN.md section 4 (C37)'),
+    'C35': ('Q-result-gates',
+            'static analysis: dominance rules over the return statements of pslq / findpoly / identify '
+            '(which tests on which objects guard each returned value), agreement of column index, '
+            'tolerance, bound and fixed-point scale between the test and the returned object',
+            'Clause: what these functions hand out has passed the documented tests - every vector pslq '
+            'returns is the integer column i of B whose residual |y[i]| was compared with the caller\'s '
+            'tolerance (both scaled at one precision) and whose coefficients were compared, strictly, with '
+            'maxcoeff; findpoly returns only a reversed, non-None pslq relation on [1, x, .., x**i], i <= n, '
+            'with the caller\'s tol/maxcoeff forwarded; identify adds a formula only for a relation that is '
+            'not None, within the bound, and has a non-zero leading coefficient.  That PSLQ finds existing '
+            'relations and the accuracy of its fixed-point iteration are numerical and NOT decided.',
+            'Assumes the PSLQ invariant "y[i] is the residual of column i of B" (maintained by the '
+            'iteration, not decided).',
+            'DESIGN.md section 10 (C35)'),
 }
 
 NA_REASONS = {
